@@ -1414,3 +1414,43 @@ func (w *World) avThroughLayers(a AV) AV {
 	}
 	return a
 }
+
+// vbCountSource (C09): members that agree on the group size partition the same 0..N-1 only if N is the same for all of
+// them: the bucket's vBucket count as the cluster map states it (Client.GetNumVBuckets), handed to the vBucket
+// discovery as it is — not a count derived from what happens to be active or answered at start-up.
+func vbCountSource(c *Ctx, id string) {
+	w := c.W
+	n := 0
+	for _, fn := range w.ModFuncs {
+		allInstrs(fn, func(in ssa.Instruction) {
+			cc := callOf(in)
+			if cc == nil {
+				return
+			}
+			g := cc.StaticCallee()
+			if g == nil || g.Name() != "NewVBucketDiscovery" || !w.inModule(g) {
+				return
+			}
+			n++
+			c.CallSites++
+			c.see(fn)
+			// the int parameter of the constructor
+			pi := -1
+			for i, p := range g.Params {
+				if bt, ok := p.Type().Underlying().(*types.Basic); ok && bt.Info()&types.IsInteger != 0 {
+					pi = i
+				}
+			}
+			if pi < 0 || pi >= len(cc.Args) {
+				c.Undecided(id, "vb-count@"+fname(fn), in.Pos(), "the vBucket-count parameter of NewVBucketDiscovery was not found")
+				return
+			}
+			o := w.Origin(cc.Args[pi])
+			ok := strings.HasSuffix(o, ".GetNumVBuckets)()") && !strings.Contains(o, "φ")
+			c.Check(ok, id, "vb-count@"+fname(fn), in.Pos(), "N ← "+o, "the vBucket count handed to the discovery is "+o+", not the bucket's vBucket count from the cluster map (Client.GetNumVBuckets): members started at different moments would partition different ranges")
+		})
+	}
+	if n == 0 {
+		c.Undecided(id, "vb-count", 0, "no call of NewVBucketDiscovery found")
+	}
+}
